@@ -106,7 +106,12 @@ package cache
 //@   property C08 C01
 //@   lock c.mu : none
 //@   requires c.cache != nil
-//@   ensures result == c.items
+//@   ensures result != nil && fresh(result)
+//@   ensures forall k K :: { result[k] } (k in result <==> k in c.items) && (k in c.items ==> result[k] == c.items[k])
+//@ loop 1
+//@   invariant items != nil && fresh(items) && c.cache == old(c.cache) && c.items == old(c.items)
+//@   invariant forall k K :: { items[k] } (k in items <==> k in $visited) && (k in items ==> items[k] == c.items[k])
+//@   invariant forall k K :: k in $visited ==> k in c.items
 
 //@ func (*cache.Cache).Count
 //@   property C08 C01 C02
@@ -131,6 +136,7 @@ package cache
 //@ func (*cache.Cache).MapToCache
 //@   property C08 C01
 //@   lock c.mu : none
+//@   opt multi-section
 //@   requires cacheInv(c)
 //@   ghost bad bool = false
 //@   ghost-at Set#1: bad = bad || $ret != nil
@@ -144,8 +150,8 @@ package cache
 //@   invariant cacheInv(c) && c.cache == old(c.cache) && c.items == old(c.items)
 //@   invariant bad ==> err != nil
 //@   invariant !bad ==> err == nil
-//@   invariant forall k K :: { c.items[k] } !(k in $visited) ==> ((k in c.items) <==> old(k in c.items)) && c.items[k] == old(c.items[k])
-//@   invariant forall k K :: { c.items[k] } k in $visited && !old(k in c.items) && !isEmptyString(m[k]) ==> k in c.items && c.items[k].object == m[k]
+//@   invariant[seq] forall k K :: { c.items[k] } !(k in $visited) ==> ((k in c.items) <==> old(k in c.items)) && c.items[k] == old(c.items[k])
+//@   invariant[seq] forall k K :: { c.items[k] } k in $visited && !old(k in c.items) && !isEmptyString(m[k]) ==> k in c.items && c.items[k].object == m[k]
 //@   invariant forall k K :: k in $visited ==> k in m
 
 //@ func (*cache.Cache).IsExpired
@@ -173,3 +179,6 @@ package cache
 //@   invariant icacheInv(c) && c.items == old(c.items)
 //@   invariant forall k K :: { c.items[k] } old(k in c.items) && (old(c.items[k].expiration) <= 0 || now <= old(c.items[k].expiration)) ==> k in c.items && c.items[k] == old(c.items[k])
 //@   invariant forall k K :: { c.items[k] } k in c.items ==> old(k in c.items) && c.items[k] == old(c.items[k])
+
+//@ guards cache.cache.mu : items, map(items)
+//@ lockinv cache.cache : icacheInv(self)
